@@ -310,7 +310,7 @@ fn to_radix_values(r: &mut Rng, n: usize, radix: u32, count: usize) -> Vec<B> {
         }
         // decimal always, and one rotating other radix per run: every exponent up to capacity
         let rot = [3u32, 7, 36, 100, 255, 5, 12][(r.0 % 7) as usize];
-        if radix == 10 || (radix == rot && n >= 8) {
+        if radix == 10 || (radix == rot && n >= 8 && n <= 128) {
             let mut j = 1u32;
             let mut p = rb.clone();
             loop {
@@ -325,12 +325,25 @@ fn to_radix_values(r: &mut Rng, n: usize, radix: u32, count: usize) -> Vec<B> {
             js.sort();
             js.dedup();
         }
+        // powers computed incrementally: pows[j] = radix^j while it fits
+        let jmax = js.iter().copied().max().unwrap_or(0);
+        let mut pows: Vec<B> = vec![gen::small(n, 1)];
+        {
+            let rt = gen::trim(rb.clone());
+            while (pows.len() as u32) <= jmax {
+                let q = gen::umul(&gen::trim(pows.last().unwrap().clone()), &rt);
+                if gen::trim(q.clone()).len() > n {
+                    break;
+                }
+                pows.push(gen::fit(&gen::trim(q), n));
+            }
+        }
         for j in js {
-            if j == 0 || j > 1200 {
+            if j == 0 || (j as usize) >= pows.len() {
                 continue;
             }
-            let (p, ov) = gen::upow(&rb, j, n);
-            if !ov {
+            let p = pows[j as usize].clone();
+            {
                 v.push(p.clone());
                 v.push(gen::add1(&p));
                 v.push(gen::sub1(&p));
@@ -504,6 +517,39 @@ fn run_type<T: Text>(rec: &mut Rec, prop: &str, seed: u64, thorough: bool) {
             b
         }
     };
+    if n > 128 {
+        // the 2080- and 8192-bit types: decimal plus two other radices, exact-power sweeps, a few numerals
+        match prop {
+            "C10" => {
+                for radix in [10u32, 16, 7] {
+                    for s in parse_inputs(&mut r, n, T::S, radix, 3) {
+                        T::parse_events(rec, &s, radix);
+                    }
+                }
+            }
+            "C11" => {
+                let rot = [3u32, 7, 36, 100, 255, 5, 12][(r.0 % 7) as usize];
+                for radix in [10u32, rot, 256, 8] {
+                    let vals = to_radix_values(&mut r, n, radix, 4);
+                    // these conversions cost the library itself ~0.1-0.4 s each in an unoptimised build
+                    let keep: usize = if n <= 300 { if thorough { 1 } else { 5 } } else if thorough { 8 } else { 60 };
+                    let off = (seed as usize) % keep;
+                    for (k, b) in vals.into_iter().enumerate() {
+                        if k % keep == off || k < 3 {
+                            T::to_radix_events(rec, T::dec(&b), radix);
+                        }
+                    }
+                }
+            }
+            "C12" => {
+                for b in fmt_values(&mut r, n, 6) {
+                    fmt_events(rec, &mut r, T::dec(&b), 4);
+                }
+            }
+            _ => panic!("unknown property"),
+        }
+        return;
+    }
     match prop {
         "C10" => {
             for radix in radices_str(&mut r, thorough) {
@@ -600,6 +646,7 @@ fn main() {
         for_prims!(run_prim);
     } else {
         for_matrix!(run_bnum);
+        for_giants!(run_bnum);
     }
     let ctx = CTX.with(|c| c.borrow_mut().take().unwrap());
     let (n, splits) = ctx.sink.finish();
